@@ -15,10 +15,11 @@ RULE = ('tuples of 1-5 functions of 3-4 variables (incl. constants, shared sub-g
         'declaring the variables in the same order, in a different order with levels=False / load_order in {False,True}; '
         'a different order with levels=True must be refused with ValueError; pickle dumped without roots loads without '
         'error; whole-manager pickle (_dump_manager/_load_manager) and copy.copy reproduce the manager. Judged by truth '
-        'table per name/position, wf() of the receiver, exact ledger after the autoref loaders. non-trivial: a root is '
+        'table per name/position, wf() of the receiver, exact ledger after the autoref loaders; functions of several hundred nodes over '
+        '12-14 variables loaded (JSON, pickle) into receivers with dynamic reordering enabled, compared on 200 sampled assignments. non-trivial: a root is '
         'non-constant; distinct = (format, target kind, root truth tables).')
 EXHAUSTIVE = {'quick': False, 'thorough': False}
-REQUIRED_COUNTERS = ['pickle-roundtrips', 'json-roundtrips', 'manager-roundtrips', 'refused-as-documented']
+REQUIRED_COUNTERS = ['pickle-roundtrips', 'json-roundtrips', 'manager-roundtrips', 'refused-as-documented', 'large-roundtrips']
 
 
 def bounds(tier):
@@ -30,6 +31,8 @@ def chunks(tier, seed):
     out = []
     for k in range(0, n, 10):
         out.append(('case_roundtrip', [dict(seed=seed * 613 + k + i) for i in range(10)]))
+    for k in range(4 if tier == 'quick' else 4 * DEEP):
+        out.append(('case_large', [dict(seed=seed * 617 + k)]))
     return out
 
 
@@ -248,3 +251,58 @@ def _case_roundtrip(c, res, td, HELD):
         res.count('manager-roundtrips')
     loaded = None
     return key
+
+
+@_in_tmp
+def case_large(c, res, td):
+    """a function of several hundred nodes over 12-14 variables, dumped (JSON / pickle) and loaded into a receiver whose dynamic reordering
+    is enabled, so that the receiver reorders itself (and collects garbage) in the middle of the load; compared on sampled assignments"""
+    import dd.autoref as A
+    rnd = random.Random(c['seed'])
+    n = rnd.randint(12, 14)
+    names = [f'x{i}' for i in range(n)]
+    src = A.BDD()
+    src.declare(*names)
+    f = src.false
+    cubes = []
+    for _ in range(rnd.randint(18, 30)):
+        lits = {v: rnd.random() < .5 for v in rnd.sample(names, rnd.randint(3, 5))}
+        cubes.append(lits)
+        f = f | src.cube(lits)
+    roots = [f, ~f] if rnd.random() < .5 else [f]
+    fmt = rnd.choice(['json', 'json', 'pickle'])
+    tm = A.BDD()
+    order = names[:]
+    if rnd.random() < .5:
+        rnd.shuffle(order)
+        tm.declare(*order)
+    tm.configure(reordering=True)
+    if fmt == 'json':
+        src.dump('big.json', roots)
+        loaded = tm.load('big.json')
+    else:
+        src.dump('big.p', roots)
+        loaded = tm.load('big.p', levels=False)
+    site = f'{fmt}-load[large, reordering enabled]'
+    require(len(loaded) == len(roots), site + '#post:same-positions', lambda: f'{loaded}')
+    require(tm.configure()['reordering'] is True, site + '#post:reordering-setting-kept', '')
+    tb = tm._bdd
+    for k in range(200):
+        a = {v: rnd.random() < .5 for v in names}
+        if k % 4 == 0:
+            a.update(rnd.choice(cubes))
+        want = any(all(a[v] == val for v, val in cu.items()) for cu in cubes)
+        for g, neg in zip(loaded, (False, True)):
+            val = tm.let(a, g)
+            require(val in (tm.true, tm.false) and (val == tm.true) == (want != neg), site + '#post:same-function',
+                    lambda: f'{len(src)} nodes dumped; assignment {a}: loaded root {"~f" if neg else "f"} gives {val}, the dumped function {want != neg}')
+    val = g = None        # the last evaluation result is a handle on the terminal
+    gc.collect()
+    ext = wf(tb, None)
+    cnt = {}
+    for h in loaded:
+        cnt[abs(h.node)] = cnt.get(abs(h.node), 0) + 1
+    for u, e in ext.items():
+        require(e == cnt.get(u, 0) + (1 if u == 1 else 0), site + '#post:exact-counts', lambda: f'node {u}: ref-indeg={e}, live handles {cnt.get(u, 0)}')
+    res.count('large-roundtrips')
+    return (fmt, n, len(src))
